@@ -132,7 +132,7 @@ Print Assumptions C12_src_pin_feedback_new.
 From XcpProofs Require Import XState.
 From Coq Require Import String.
 Theorem C12_src_no_state_carried_between_files :
-  x_static_items = ["libxcp/src/backup.rs::BAK_REGEX"%string] /\ x_thread_locals = [] /\ x_umask_calls = 0%N.
+  x_static_items = ["libxcp/src/backup.rs::BAK_REGEX"; "libxcp/src/operations.rs::BACKUP_STEP"]%string /\ x_thread_locals = [] /\ x_umask_calls = 0%N.
 Proof. exact x_process_wide_state_ok. Qed.
 Print Assumptions C12_src_no_state_carried_between_files.
 
@@ -163,3 +163,15 @@ Theorem C12_src_every_failure_is_returned :
   List.map fst routes = [0; 1; 2]%N /\ forall k r, List.In (k, r) routes -> List.In 2%N r /\ ~ List.In 99%N r.
 Proof. exact x_every_failure_is_returned. Qed.
 Print Assumptions C12_src_every_failure_is_returned.
+
+(* ---- more glue on this property's path, pinned token for token ---- *)
+From XcpPins Require Import Pin_operations_new Pin_operations_copy_file Pin_operations_tree_walker.
+Theorem C12_src_pin_operations_new : pin_unchanged name_operations_new.
+Proof. exact pin_operations_new. Qed.
+Theorem C12_src_pin_operations_copy_file : pin_unchanged name_operations_copy_file.
+Proof. exact pin_operations_copy_file. Qed.
+Theorem C12_src_pin_operations_tree_walker : pin_unchanged name_operations_tree_walker.
+Proof. exact pin_operations_tree_walker. Qed.
+Print Assumptions C12_src_pin_operations_new.
+Print Assumptions C12_src_pin_operations_copy_file.
+Print Assumptions C12_src_pin_operations_tree_walker.
